@@ -209,7 +209,7 @@ def module_mutables(prog, modules):
                     kind = "dict"
                 elif isinstance(v, (ast.Set, ast.SetComp)):
                     kind = "set"
-                elif isinstance(v, ast.Call) and ast.unparse(v.func) in ("dict", "list", "set", "defaultdict", "collections.defaultdict", "OrderedDict", "collections.OrderedDict", "WeakValueDictionary", "weakref.WeakValueDictionary", "threading.local", "local"):
+                elif isinstance(v, ast.Call) and ast.unparse(v.func) in ("dict", "list", "set", "bytearray", "array", "array.array", "deque", "collections.deque", "Counter", "collections.Counter", "defaultdict", "collections.defaultdict", "OrderedDict", "collections.OrderedDict", "WeakValueDictionary", "weakref.WeakValueDictionary", "threading.local", "local", "io.BytesIO", "BytesIO", "io.StringIO", "StringIO"):
                     kind = ast.unparse(v.func)
                 elif isinstance(v, ast.GeneratorExp):
                     kind = "one-shot iterator (generator expression)"
@@ -255,6 +255,8 @@ def name_uses(prog, modname, name):
                     ctx = "mutated"
                 elif isinstance(par, ast.AugAssign) and par.target is n:
                     ctx = "mutated"
+                elif isinstance(par, ast.Call) and n in par.args and isinstance(par.func, ast.Attribute) and par.func.attr in ("pack_into", "readinto", "readinto1", "recv_into", "recvfrom_into", "shuffle", "heappush", "heappop", "heapify", "insort", "dump"):
+                    ctx = "mutated"  # handed to a call that writes into its argument
                 elif isinstance(par, ast.alias):
                     continue
                 out.append((m, n, ctx))
